@@ -130,6 +130,20 @@ def If(cond, true_value, false_value):
         else:
             raise ClaripyTypeError(f"can't convert {type(args[2])} to {ty}")
 
+    simplified = _if_shortcut(args)
+    if simplified is not None:
+        # like every other rewrite: relocate the arguments' relocatable annotations onto the result and skip the
+        # rewrite if it would eliminate a non-eliminatable annotation
+        simplified = operations._handle_annotations(simplified, args)
+        if simplified is not None:
+            return simplified
+
+    if issubclass(ty, Bits):
+        return ty("If", tuple(args), length=args[1].length)
+    return ty("If", tuple(args))
+
+
+def _if_shortcut(args):
     if is_true(args[0]):
         return args[1].append_annotations(args[0].annotations)
     if is_false(args[0]):
@@ -150,10 +164,7 @@ def If(cond, true_value, false_value):
         return args[0]
     if args[1] is false() and args[2] is true():
         return ~args[0]
-
-    if issubclass(ty, Bits):
-        return ty("If", tuple(args), length=args[1].length)
-    return ty("If", tuple(args))
+    return None
 
 
 And = operations.op("And", Bool, Bool)
